@@ -356,6 +356,11 @@ func (s *Sess) callGeneric(op *Op, out *Outcome) {
 		skip := func(same bool) bool { return same && xs.configured && (s.step/3)%3 != 0 }
 		steps := []func(){
 			func() {
+				if len(op.Add) == 0 && !xs.configured && s.step%2 == 0 {
+					// nothing to add and a new object: Adds is not called at all
+					s.Cov.N["generic_exchange_without_adds"]++
+					return
+				}
 				if !skip(eqInts(xs.add, op.Add)) {
 					x.Adds(s.compsOf(op.Add)...)
 				} else {
